@@ -127,6 +127,19 @@ CHECKS = {
             'sign_out on 204 and the shape of join.selectedProfile are '
             'observations only.',
             'DESIGN.md §3 C19'),
+    'C16': ('exploration',
+            'history monitor with server barriers + lifecycle model; I/O event '
+            'log by thread role and transport generation; two-thread stress '
+            'under sys.monitoring yield injection',
+            'All length-1/2 and generated longer call histories over 15 '
+            'actions: exceptions to callers, TCP connections, keep-alive echo '
+            'after refused calls, termination, reuse; I/O role sequence never '
+            'interleaves and no thread touches a foreign transport; 24/300 '
+            'concurrent two-user runs. Two schedule-dependent stale-thread '
+            'effects are recorded known findings (keyed by code path).',
+            'transport errors reported under racing user calls are legitimate;'
+            ' watchdog firing = inconclusive.',
+            'DESIGN.md §3 C16'),
     'C02': ('exploration',
             'runtime monitor: recording sink + counting stream + step budget '
             'around the real codecs; independent wire-type oracle; prefix rule',
